@@ -149,6 +149,38 @@ func init() {
 	reg("join", func(a []string) string {
 		return retainU64s("join", bitmap.Join(parseU64s(a[0]), mustI32(a[1])))
 	})
+	// joinprobe n w seed: Join of n values given by a formula, at sizes the Lean driver cannot evaluate (up to the
+	// int32 boundary of 2^31 bits). The property is evaluated here, on the real code: word count, sampled Getw
+	// read-backs, no bit beyond n*w. Output "ok" or the first discrepancy.
+	reg("joinprobe", func(a []string) string {
+		n, w, seed := int(mustI64(a[0])), int32(mustI64(a[1])), mustU64(a[2])
+		val := func(i int) uint64 { return (uint64(i)*0x9e3779b97f4a7c15 + seed) ^ uint64(i)>>7 }
+		vs := make([]uint64, n)
+		for i := range vs {
+			vs[i] = val(i)
+		}
+		r := bitmap.Join(vs, w)
+		if want := (n*int(w) + 63) / 64; len(r) != want {
+			return fmt.Sprintf("len=%d want %d", len(r), want)
+		}
+		m := ^uint64(0)
+		if w < 64 {
+			m = 1<<uint(w) - 1
+		}
+		for k := 0; k < 4096 && n > 0; k++ {
+			i := []int{k, n - 1 - k, int(val(k) % uint64(n))}[k%3]
+			if i < 0 || i >= n {
+				continue
+			}
+			if got := bitmap.Getw(r, int32(i), w); got != vs[i]&m {
+				return fmt.Sprintf("Getw(%d)=%d want %d", i, got, vs[i]&m)
+			}
+		}
+		if rem := (n * int(w)) % 64; rem != 0 && r[len(r)-1]>>uint(rem) != 0 {
+			return "bits beyond n*w are set"
+		}
+		return "ok"
+	})
 	reg("getw", func(a []string) string {
 		return strconv.FormatUint(bitmap.Getw(parseU64s(a[0]), mustI32(a[1]), mustI32(a[2])), 10)
 	})
